@@ -82,6 +82,7 @@ func checkC09(c *Ctx) {
 	r.Rule("R09.1", "nobody retains the caller's key slice", 15)
 	r.Rule("R09.2", "stored keys are private copies (every Write)", 3)
 	r.Rule("R09.3", "hash lookups are confirmed by the full key before the entry is used or deleted", 4)
+	r.Rule("R09.5", "label invalidation de-duplicates by the key itself, not by a digest of it", 1)
 	r.Rule("R09.4", "Failover's per-key build locks are keyed by string(key) (not by a hash: colliding keys must not share a build)", 1)
 	r.NotDecided = []string{"xxhash collisions themselves", "user backends / loggers keeping the slice"}
 	c.c09Retention()
@@ -91,6 +92,10 @@ func checkC09(c *Ctx) {
 			c.c09Confirm(b)
 		}
 	}
+	// R09.5: label invalidation remembers processed keys by the key itself (a digest would let a colliding key's entry survive)
+	c.borrow("C15", func() { c.c15Protocol() }, func(o *coreObl) (string, bool) {
+		return "R09.5", o.Rule == "R15.3" && (o.Status == "discharged" || o.What == "dedup-key")
+	})
 	// R09.4: the per-key build locks of the Failover frontends are keyed by the full key, not by a hash of it
 	for _, sib := range siblings {
 		fo := c.failover(sib)
